@@ -78,7 +78,15 @@ func decoyOf(r *simrt.Rand, c *Call) *Call {
 		l[j] = joinSlash(parts)
 	}
 	if len(d.IDs) > 0 {
-		opts = append(opts, func() { nudge(d.IDs) }, func() { d.IDs = d.IDs[:len(d.IDs)-1] })
+		opts = append(opts, func() { nudge(d.IDs) }, func() { d.IDs = d.IDs[:len(d.IDs)-1] },
+			// a call that fails after a valid prefix of its list was processed (error paths
+			// that leave state behind show on the next call)
+			func() {
+				// malformed or out-of-range in a way every operation rejects quickly
+				// (an out-of-range zoom is not: merge divides everything down to the finest zoom it sees)
+				bad := []string{"not-an-id", "1/2/3", "5/x/1/5/0"}[r.Intn(3)]
+				d.IDs = append(d.IDs, bad)
+			})
 	}
 	if len(d.IDs2) > 0 {
 		opts = append(opts, func() { nudge(d.IDs2) })
